@@ -115,7 +115,8 @@ uint32_t in_uid, in_gid, in_pid;
 int32_t in_verdict;
 uint8_t in_set_auth;
 uint32_t in_auid, in_agid, in_amode;
-uint8_t in_fail_at;           /* 0: no transport failure; 1..3: k-th qb_rb_open fails; 4..6: k-th chown fails; 7..9: k-th chmod fails; 10: dispatch_add fails */
+uint8_t in_fail_at;           /* 0: no transport failure; 1..3: k-th qb_rb_open fails; 4..6: k-th chown fails; 7..9: k-th chmod fails; 10: dispatch_add fails;
+                                 11: everything came up but the handshake reply cannot be sent (EPIPE: the client died meanwhile) */
 uint8_t in_other_first;       /* part A: a record of another type precedes the credentials */
 
 /* ---- ring stubs: contract of qb_rb_open(CREATE) = files created with mode 0600, owned by the creator ---- */
@@ -191,7 +192,10 @@ static ssize_t verif_send(int fd, const void *buf, size_t n, int flags)
 {
 	(void)fd; (void)flags;
 	/* only the header of the 12 KiB response is of interest here */
-	if (n == sizeof(struct qb_ipc_connection_response)) { sent.hdr = *(const struct qb_ipc_response_header *)buf; sent_n++; }
+	if (n == sizeof(struct qb_ipc_connection_response)) {
+		sent.hdr = *(const struct qb_ipc_response_header *)buf; sent_n++;
+		if (in_fail_at == 11) { errno = EPIPE; return -1; }          /* the client died while waiting for the reply */
+	}
 	return (ssize_t)n;
 }
 
@@ -247,7 +251,7 @@ void harness(void)
 	in_set_auth = SET_AUTH;
 #endif
 	ASSUME(in_verdict <= 0);                         /* documented: 0 or a negative errno */
-	ASSUME(in_fail_at <= 10);
+	ASSUME(in_fail_at <= 11);
 	ASSUME((in_amode & ~0777u) == 0);
 
 	struct qb_ipcs_service *svc = calloc(1, sizeof *svc);
@@ -276,7 +280,7 @@ void harness(void)
 	PROP(accept_calls == 1, "the accept callback is asked exactly once");
 	PROP(seen_uid == in_uid && seen_gid == in_gid, "the accept callback sees the peer's credentials");
 	PROP(sent_n == 1, "exactly one response is sent to the client");
-	PROP(sent.hdr.error == r, "the client is told the outcome the server acted on");
+	if (in_fail_at != 11) PROP(sent.hdr.error == r, "the client is told the outcome the server acted on");
 	if (in_verdict != 0) {
 		PROP(r == in_verdict, "a refusal is reported with the accept callback's error code");
 		PROP(nring_open_calls == 0, "a refused client gets no channel");
@@ -289,7 +293,7 @@ void harness(void)
 		PROP(!gdir.exists, "no directory remains after a failed connect");
 		PROP(created_calls == 0, "created is not reported for a failed connect");
 	} else {
-		PROP(in_verdict == 0 && in_fail_at != 1 && in_fail_at != 2 && in_fail_at != 3 && in_fail_at != 10, "success only if accepted and the transport came up");
+		PROP(in_verdict == 0 && in_fail_at != 1 && in_fail_at != 2 && in_fail_at != 3 && in_fail_at != 10 && in_fail_at != 11, "success only if accepted, the transport came up and the reply went out");
 		PROP(nring_opened == 3, "three channels");
 		for (int i = 0; i < 3; i++) {
 			PROP(gring[i].exists, "channel file exists");
